@@ -148,22 +148,25 @@ Definition mod_folder (c : cfg) (s : str) : path :=
 
 Theorem mod_outcome_iff : forall c f s,
   (forall p, lower_import c f (modd s) = Accept p <->
-     forallb is_alnum s = true /\ is_dir (c_fs c) (mod_folder c s) = true
+     mod_name_ok c s = true /\ is_dir (c_fs c) (mod_folder c s) = true
      /\ p = clean (mod_folder c s ++ [s_mod_capy]) /\ is_file (c_fs c) p = true)
-  /\ (lower_import c f (modd s) = Reject RModNotAlnum <-> forallb is_alnum s = false)
+  /\ (lower_import c f (modd s) = Reject RModNotAlnum <-> mod_name_ok c s = false)
   /\ (lower_import c f (modd s) = Reject RModMissing <->
-        forallb is_alnum s = true /\ is_dir (c_fs c) (mod_folder c s) = false)
+        mod_name_ok c s = true /\ is_dir (c_fs c) (mod_folder c s) = false)
   /\ (lower_import c f (modd s) = Reject RModNoFile <->
-        forallb is_alnum s = true /\ is_dir (c_fs c) (mod_folder c s) = true
+        mod_name_ok c s = true /\ is_dir (c_fs c) (mod_folder c s) = true
         /\ is_file (c_fs c) (clean (mod_folder c s ++ [s_mod_capy])) = false).
 Proof.
   intros c f s. unfold lower_import, modd, mod_folder. cbn [dir_arg dir_is_mod].
-  destruct (forallb is_alnum s) eqn:E1; cbn [negb]; [|solve_iff].
+  destruct (mod_name_ok c s) eqn:E1; cbn [negb]; [|solve_iff].
   destruct (is_dir (c_fs c) (c_mod_dir c ++ match s with [] => [] | _ :: _ => [s] end ++ [s_src])) eqn:E2;
     cbn [negb]; [|solve_iff].
   destruct (is_file (c_fs c) (clean ((c_mod_dir c ++ match s with [] => [] | _ :: _ => [s] end ++ [s_src]) ++ [s_mod_capy]))) eqn:E3;
     cbn [negb]; solve_iff.
 Qed.
+
+Lemma mod_name_ok_alnum : forall c s, mod_name_ok c s = true -> forallb is_alnum s = true.
+Proof. intros c s H. unfold mod_name_ok in H. apply andb_true_iff in H. tauto. Qed.
 
 (* the alphanumeric module name is directly below the module directory *)
 Lemma mod_target_plain : forall c s, s <> [] -> forallb normal (c_mod_dir c) = true -> normal s = true ->
@@ -175,27 +178,43 @@ Proof.
   - rewrite !List.forallb_app, Hm. cbn [forallb]. rewrite Hn. reflexivity.
 Qed.
 
-(* full-strength reading of the statement: only NON-EMPTY alphanumeric names *)
-Definition C28_mod_full : Prop := forall c f s p,
+(* full-strength reading of the statement: only NON-EMPTY alphanumeric names are accepted.
+   Stated per code variant. *)
+Definition C28_mod_full (fixed : bool) : Prop := forall c f s p,
+  c_fixed c = fixed ->
   lower_import c f (modd s) = Accept p -> s <> [] /\ forallb is_alnum s = true.
 
-Lemma C28_mod_full_refuted : ~ C28_mod_full.
+(* HISTORY (pinned commit, before the repair of C28-1): the statement is false,
+   `#mod("")` finds <mod-dir>/src/mod.capy *)
+Lemma C28_mod_full_refuted_unfixed : ~ C28_mod_full false.
 Proof.
   intros H.
   destruct (H {| c_mod_dir := [[109]%N]; c_cwd := [[119]%N];
-                 c_fs := [([[109]%N; s_src], Dir); ([[109]%N; s_src; s_mod_capy], File)] |}
+                 c_fs := [([[109]%N; s_src], Dir); ([[109]%N; s_src; s_mod_capy], File)];
+                 c_fixed := false |}
               [[119]%N; [120]%N] [] [[109]%N; s_src; s_mod_capy]) as [Hne _].
+  - reflexivity.
   - vm_compute. reflexivity.
   - apply Hne. reflexivity.
 Qed.
 
-(* ...and what holds instead *)
+(* the repaired code (`file.is_empty() || !all alphanumeric` -> ModMustBeAlphanumeric) *)
+Theorem C28_mod_full_fixed : C28_mod_full true.
+Proof.
+  intros c f s p Hfix H. apply (proj1 (mod_outcome_iff c f s)) in H. destruct H as (H1 & _).
+  split; [|eapply mod_name_ok_alnum; eauto].
+  unfold mod_name_ok in H1. rewrite Hfix in H1. apply andb_true_iff in H1. destruct H1 as [_ H1].
+  intros ->. discriminate.
+Qed.
+
+(* ...and what holds for both variants *)
 Theorem mod_accept_only_alnum : forall c f s p,
   lower_import c f (modd s) = Accept p ->
   forallb is_alnum s = true /\ is_file (c_fs c) p = true
   /\ (s <> [] -> forallb normal (c_mod_dir c) = true -> p = c_mod_dir c ++ [s; s_src; s_mod_capy]).
 Proof.
   intros c f s p H. apply (proj1 (mod_outcome_iff c f s)) in H. destruct H as (H1 & H2 & H3 & H4).
+  apply mod_name_ok_alnum in H1.
   repeat split; auto. intros Hs Hm. subst p. apply mod_target_plain; auto.
   (* an alphanumeric non-empty name is a normal component *)
   destruct s as [|x s']; [congruence|]. cbn [forallb] in H1. apply andb_true_iff in H1. destruct H1 as [Hx _].
